@@ -571,7 +571,11 @@ func checkBodyAssigned(c *Ctx, ev *tmpl.Evaluator) {
 	}
 	var conds []*tmpl.Cond
 	atoms := map[string]bool{}
-	for _, oc := range l.Find(regexp.MustCompile(`⟦\.ReceiverName⟧\.⟦pascalize \.Name⟧ = (⟦[^⟧]*⟧)?&?\w+\n`)) {
+	for _, oc := range l.Find(regexp.MustCompile(`⟦\.ReceiverName⟧\.⟦pascalize \.Name⟧ = (⟦[^⟧]*⟧)?&?\w+\b`)) {
+		// (trim markers may have removed the newline that follows the assignment)
+		if oc.End < len(l.Text) && (l.Text[oc.End] == '(' || l.Text[oc.End] == '.') {
+			continue
+		}
 		cd := tmpl.StackCond(oc.Guards)
 		cd.Atoms(atoms)
 		conds = append(conds, cd)
